@@ -125,6 +125,18 @@ pub enum GenericIfData {
 // tokenize()
 // Tokenize the text of the a2ml section
 fn tokenize_a2ml(filename: &Filename, input: &str) -> Result<(Vec<TokenType>, String), String> {
+    let mut include_stack = vec![tokenizer::canonical_name(&filename.full)];
+    tokenize_a2ml_with_includes(filename, input, &mut include_stack)
+}
+
+// tokenize_a2ml_with_includes()
+// include_stack contains the names of the files that are currently being processed, i.e. the
+// file itself and all the files that include it. It is used to detect recursive includes.
+fn tokenize_a2ml_with_includes(
+    filename: &Filename,
+    input: &str,
+    include_stack: &mut Vec<std::ffi::OsString>,
+) -> Result<(Vec<TokenType>, String), String> {
     let mut amltokens = Vec::<TokenType>::new();
     let input_bytes = input.as_bytes();
     let datalen = input_bytes.len();
@@ -169,7 +181,8 @@ fn tokenize_a2ml(filename: &Filename, input: &str) -> Result<(Vec<TokenType>, St
         } else if input_bytes[bytepos..].starts_with(b"/include") {
             // copy any uncopied text before the include token
             complete_string.push_str(&input[copypos..startpos]);
-            let (mut tokresult, incfile_text) = tokenize_include(filename, input, &mut bytepos)?;
+            let (mut tokresult, incfile_text) =
+                tokenize_include(filename, input, &mut bytepos, include_stack)?;
             complete_string.push_str(&incfile_text);
             copypos = bytepos;
 
@@ -255,6 +268,7 @@ fn tokenize_include(
     filename: &Filename,
     input: &str,
     bytepos: &mut usize,
+    include_stack: &mut Vec<std::ffi::OsString>,
 ) -> Result<(Vec<TokenType>, String), String> {
     let input_bytes = input.as_bytes();
     let datalen = input_bytes.len();
@@ -312,9 +326,18 @@ fn tokenize_include(
 
     // check if incname is an accessible file
     let incpathref = Path::new(&incfilename);
+    // a file that includes itself, directly or indirectly, can't be loaded
+    let canonical_incname = tokenizer::canonical_name(&incfilename);
+    if include_stack.contains(&canonical_incname) {
+        return Err(format!("recursive include of {}", incpathref.display()));
+    }
     let loadresult = loader::load(incpathref);
     if let Ok(incfiledata) = loadresult {
-        tokenize_a2ml(&Filename::from(incpathref), &incfiledata)
+        include_stack.push(canonical_incname);
+        let result =
+            tokenize_a2ml_with_includes(&Filename::from(incpathref), &incfiledata, include_stack);
+        include_stack.pop();
+        result
     } else {
         Err(format!("failed reading {}", incpathref.display()))
     }
